@@ -39,6 +39,9 @@ type Sched struct {
 	free    bool             // schedule over: every hook passes through
 	all     []*park
 	StepTimeout time.Duration
+	OnlyPark map[string]bool   // when set: only these points park; the others pass through
+	mapIDs   map[string]int    // type map identity -> small id
+	MapsOf   map[string]map[int]bool // actor -> ids of the type maps it encoded with
 }
 
 func goid() int64 {
@@ -77,6 +80,26 @@ func (s *Sched) Hook(point string, subject any) {
 	}
 	if !known {
 		// a goroutine the schedule does not control (e.g. Stop at the end)
+		s.mu.Unlock()
+		return
+	}
+	if s.OnlyPark != nil && !s.OnlyPark[point] {
+		if point == "encode.enter" {
+			key := fmt.Sprintf("%p", subject)
+			if s.mapIDs == nil {
+				s.mapIDs = map[string]int{}
+				s.MapsOf = map[string]map[int]bool{}
+			}
+			id, ok := s.mapIDs[key]
+			if !ok {
+				id = len(s.mapIDs) + 1
+				s.mapIDs[key] = id
+			}
+			if s.MapsOf[actor] == nil {
+				s.MapsOf[actor] = map[int]bool{}
+			}
+			s.MapsOf[actor][id] = true
+		}
 		s.mu.Unlock()
 		return
 	}
@@ -122,6 +145,30 @@ func goStatus(id int64) string {
 		return ""
 	}
 	return string(rest[:e])
+}
+
+// settleConn waits until the connection's goroutine is parked at a gate or
+// the server is blocked reading with nothing left to read.
+func (s *Sched) settleConn(c *mem.Conn, actor string) string {
+	deadline := time.Now().Add(WaitTimeout)
+	for {
+		s.mu.Lock()
+		p := s.parked[actor]
+		s.mu.Unlock()
+		if p != nil {
+			return "parked"
+		}
+		if c.IsIdle() {
+			return "reading"
+		}
+		if c.ServerClosed() {
+			return "gone"
+		}
+		if time.Now().After(deadline) {
+			return "stuck"
+		}
+		time.Sleep(20 * time.Microsecond)
+	}
 }
 
 func (s *Sched) goidOf(actor string) int64 {
